@@ -177,6 +177,16 @@ def r5_per_call_state_is_local(ctx):
     _with_fallback(ctx, ("per-call-state",), _skeleton_r5_per_call_state_is_local)
 
 
+def _more(name):
+    def run(ctx):
+        from . import more
+
+        getattr(more, name)(ctx)
+
+    run.__name__ = name
+    return run
+
+
 RULES = [
     ("C19.R6", "P1", r6, "bookkeeping read by concurrent lookups is written before the entry that makes them possible"),
     ("C19.R5", "P1", r5_per_call_state_is_local, "the generated entry point keeps its per-call state in locals"),
@@ -184,4 +194,6 @@ RULES = [
     ("C19.R2", "P1", r2, "commit last (interleaving reading)"),
     ("C19.R3", "P1", r3_builders_excluded_or_private, "builders are excluded or private"),
     ("C19.R4", "P1", r4_whole_value_stores, "cache fills are whole-value stores"),
+    ("C19.R7", "P1", _more("value_checks_are_pure"), "per-call value checks write nothing to shared type objects"),
+    ("C19.R8", "P1", _more("call_paths_keep_no_state"), "per-call methods of the function object keep no state"),
 ]
